@@ -130,8 +130,14 @@ G("g04", O("A", C(7)), [("A", "t", "B"), ("B", "t", "S.X"), ("S.X", "i")], [{"A"
   ["opt", "templ"], "templated value chain A -> B -> S.X (reference depth 3)")
 G("g05", O("A", C(7)), [("A", "c", (0, False, None, "", "x", [], {}))], [{"A": ("c", 1)}, {"A": ("c", 3)}], ["opt", "falsy"],
   "every falsy JSON value under a defaulted option")
+G("g09", DS("d1", [O("A", C(7))]), [("A", "c", (["{B}", 1], {"Q": "{B}"}, "{B}", 5, [{"Q": ["{B}"]}])), ("B", "i")],
+  [{"A": ("c", 0), "B": 3}, {"A": ("c", 1), "B": 4}], ["opt", "templ", "ds"],
+  "templated strings held inside list / dict option values (any nesting depth), read by a cached dataset")
 G("g06", O("A", DS("dflt", [O("B")])), [("A", "t", "R"), ("R", "i"), ("B", "i")], [{"B": 1}, {"A": ("t",), "R": 2, "B": 1}],
   ["opt", "templ", "ds"], "dataset default of an option whose present value may reference a missing key")
+G("g38", DS("d1", [("optdome", "A", "DOM", C(1))]), [("A", "i"), ("DOM", "c", ([1, 2], [2, 3], [], [1]))],
+  [{"A": 2, "DOM": ("c", 0)}, {"DOM": ("c", 0)}], ["opt", "domain", "ds"],
+  "an option whose DOMAIN is read from the options (Option('A', domain=Option('DOM'))), consumed by a cached dataset")
 G("g07", ("optdom", "A", (0, 9), DS("dd", [O("B")], kind="sum")), [("A", "i"), ("B", "i")], [{"B": 3}, {"A": 4, "B": 3}],
   ["opt", "domain", "ds"], "Option with a domain whose default is a dataset (validate must not run it)")
 # --- datasets -------------------------------------------------------------------------------------------------
@@ -208,6 +214,20 @@ G("g44", ("map", ("tuple", [O("S.X"), O("S.Y"), O("S.Z", C(0)), O("B", C(0))]), 
 G("g45", DS("top", [("map", ("switch", "D", {0: O("X"), 1: DS("d1", [O("A"), O("B", C(1))], **NC)}, O("Z", C(9))), [("A", O("XS"))])], **NC),
   [("D", "i"), ("X", "i"), ("B", "i"), ("Z", "i"), ("XS", "l")], [{"D": 1, "XS": [1, 2]}, {"D": 0, "X": 1, "XS": [1]}],
   ["map", "switch", "ds"], "switch inside Map inside a dataset argument")
+G("g48", ("map", ("switch", "D", {0: O("X"), 1: O("Y")}, C(9)), [("D", DS("its", [O("DS")], kind="first", **NC))]),
+  [("DS", "c", ([0, 1], [1, 0], [1], [2, 1], [])), ("X", "i"), ("Y", "i")], [{"DS": ("c", 0), "X": 1, "Y": 2}, {"DS": ("c", 2), "Y": 2}],
+  ["map", "switch", "ds"], "Map over the DISPATCH key of a switch (each element needs its own option); the iterable is a dataset")
+G("g49", ("map", O("S"), [("S.X", O("XS"))]), [("XS", "l"), ("S.Y", "i")], [{"XS": [1, 2]}, {"XS": [1], "S.Y": 3}], ["map", "section"],
+  "the mapped key S.X is a path INTO the section S that the mapped expression reads whole (prefix keys)")
+G("g36", ("apply", ("coalesce", [("rawiter", [O("A"), O("B")]), ("rawiter", [O("X")]), ("rawiter", [])]), "list"),
+  [("A", "i"), ("B", "i"), ("X", "i")], [{"A": 1, "X": 3}, {"A": 1, "B": 2}], ["coalesce", "lazy"],
+  "coalesce over LAZY members (raw Iter): a member that cannot be evaluated must be skipped although its evaluate() returns a generator")
+G("g35", ("coalesce", [O("A"), DS("fb", [O("B", C(0))], dispatch=DS("disp", [O("M", C(0))], kind="sum"), overloads={1: O("Y", C(5))})]),
+  [("A", "i"), ("B", "i"), ("M", "i")], [{"M": 1}, {"A": 2, "M": 1}], ["coalesce", "ds", "dsdispatch"],
+  "a plain option first, then a dataset whose dispatch is a dataset (nothing of it may run when A is present)")
+G("g37", ("case", O("A"), [(("eq", 0), O("X", C(1))), (("gtds", DS("thr", [O("T")], kind="sum")), O("Y", C(2)))], C(3)),
+  [("A", "i"), ("T", "i"), ("X", "i")], [{"A": 7, "T": 2}, {"A": 0}], ["case", "ds"],
+  "a later condition is produced by a dataset (it must not run when an earlier case matches)")
 G("g46", ("iter", [O("A"), DS("d1", [O("B")]), O("A")]), [("A", "i"), ("B", "i")], [{"A": 1, "B": 2}, {"A": 2, "B": 2}], ["coll"])
 # --- templates ------------------------------------------------------------------------------------------------
 G("g50", ("template", "x{A}-{S.X}", []), [("A", "c", ("q", "", True, None)), ("S.X", "c", ("r", "zz", False))],
